@@ -552,6 +552,53 @@ fn sig_positions(seed: u64, shard: u64, parents: u64, wrong_per_pos: usize) -> T
     t
 }
 
+/// The listed finding D7 seen from the forgery side: a signature issued for a path with an encoded space also
+/// validates the *different* path in which the space is written as a literal '+'.
+fn plus_confusion(seed: u64, shard: u64, n: u64) -> Tally {
+    let mut t = Tally::new();
+    for i in 0..n {
+        let mut r = Rng::keyed(seed, "C01", "plus-confusion", shard, i);
+        let mut cfg0 = gen_cfg(&mut r);
+        cfg0.fold = false;
+        let mut l = gen_logical(&mut r, &cfg0, &GenOpts::default());
+        l.segs = vec![b"a b".to_vec(), b"c".to_vec()];
+        let mut sr = Rng::keyed(seed, "C01", "plus-confusion-spell", shard, i);
+        let mut sp = Speller {
+            r: &mut sr,
+            level: 0,
+        };
+        let (mut case, _) = make_case(&l, &cfg0, &mut sp, &Overrides::default(), 0);
+        if !execute(&case).outcome.is_ok() {
+            t.count("parent_not_accepted");
+            continue;
+        }
+        if !crate::gen::plus_for_space_in_path(&mut case.wire) {
+            continue;
+        }
+        let rec = execute(&case);
+        t.eval();
+        let Some(j) = judge(&case, &rec) else {
+            continue;
+        };
+        if let Some(v) = mon_shadow(&case, &rec, &j) {
+            let mut v = v;
+            v.signature = format!("{}|plus-for-space", v.signature);
+            if let Agreement::Mismatch {
+                known,
+                ..
+            } = &j.agreement
+            {
+                v.known = known.or(v.known);
+            }
+            t.violate(v);
+        } else {
+            t.count("plus_for_space_child_refused");
+            t.nontrivial(case.hash());
+        }
+    }
+    t
+}
+
 pub fn run(tier: Tier) -> i32 {
     let mut ctx = Ctx::new("C01", tier);
     let pre = preflight();
@@ -560,6 +607,8 @@ pub fn run(tier: Tier) -> i32 {
     let mut tally = ctx.par(64, |s| shard(seed, s, per, tier));
     let sp = ctx.par(16, |s| sig_positions(seed, s, tier.n(2, 125), if tier == Tier::Quick { 3 } else { 15 }));
     tally.merge(sp);
+    let pc = ctx.par(4, |s| plus_confusion(seed, s, tier.n(10, 200)));
+    tally.merge(pc);
     if let Err(e) = &pre {
         tally.inconclusive.push(e.clone());
     }
